@@ -781,7 +781,7 @@ Proof.
   { unfold v. cbn [v_dataoff v_buf]. rewrite app_assoc.
     assert (Lp : zlen (emit_header size next attrs ++ gp) = dataoff)
       by (rewrite zlen_app, zlen_emit_header; lia).
-    rewrite <- Lp. rewrite zlen_app. apply slice_suffix. }
+    rewrite <- Lp. rewrite (zlen_app (emit_header size next attrs ++ gp) content). apply slice_suffix. }
   rewrite S3. cbn [of_opt bind]. apply nvar_assemble_id; auto.
 Qed.
 
